@@ -122,7 +122,21 @@ pub fn register(m: &mut HashMap<&'static str, OpFn>) {
     m.insert("ed.dbl", |a| ed_out(&verif::edwards_double(&a.ed(0))));
     m.insert("ed.pow2", |a| ed_out(&verif::edwards_mul_by_pow_2(&a.ed(0), a.int(1) as u32)));
     m.insert("ed.mulcof", |a| ed_out(&a.ed(0).mul_by_cofactor()));
-    m.insert("ed.sum", |a| ed_out(&a.ed_list(0).iter().sum::<EdwardsPoint>()));
+    m.insert("ed.sum", |a| {
+        let v = a.ed_list(0);
+        let mut o = ed_out(&v.iter().sum::<EdwardsPoint>());
+        let h = v.len() / 2;
+        let mut it = v.clone().into_iter();
+        for x in [
+            v.clone().into_iter().sum::<EdwardsPoint>(),
+            v.iter().filter(|_| true).sum::<EdwardsPoint>(),
+            v[..h].iter().chain(v[h..].iter()).sum::<EdwardsPoint>(),
+            std::iter::from_fn(|| it.next()).sum::<EdwardsPoint>(),
+        ] {
+            o.push(hex(x.compress().as_bytes()));
+        }
+        o
+    });
     m.insert("ed.eq", |a| {
         let (p, q) = (a.ed(0), a.ed(1));
         vec![tb(p == q), tb(bool::from(p.ct_eq(&q)))]
